@@ -26,7 +26,7 @@ ALPHABET = ["u", "t", "8", ":", "h", "e", "x", "n", "m", "s", "c", "l", "r", "v"
 KINDS = {"sig": "KSig", "rev": "KRev", "mem": "KMem", "eq": "KEq", "comm": "KComm", "range": "KRange", "venc": "KVenc", "vdec": "KVdec"}
 
 # mutation tags run in full vs sampled (1 of n)
-FULL_TAGS = {"bytes-delete", "bytes-dup", "delete-elem", "dup-elem", "elem-of-next", "delete-key", "rename-key", "value-of-sibling", "retarget-text",
+FULL_TAGS = {"empty-container", "bytes-delete", "bytes-dup", "delete-elem", "dup-elem", "elem-of-next", "delete-key", "rename-key", "value-of-sibling", "retarget-text",
              "set-int", "flip-bool"}
 
 
